@@ -209,9 +209,15 @@ def gen_sheets(seed, n):
             elif form == 'root-own':
                 sel = rng.choice([':root', 'html']); decls.append(f'color: {col}'); feats.add('root-rule-own-colour')
             elif form == 'vendor-hack': decls += ['*zoom: 1', f'color: {col}']; feats.add('unserialisable-declaration')
-            if bg is not None: decls.append(f'background-color: {bg}'); feats.add('own-background')
+            if bg is not None:
+                decls.append(f'background-color: {bg}'); feats.add('own-background')
+                if form == 'repeated' and rng.random() < 0.5:
+                    # the text colour in force comes AFTER the background declaration (last `color` wins wherever it stands)
+                    decls.remove(f'color: {col}'); decls.append(f'color: {col}'); feats.add('repeated-after-background')
             if rng.random() < 0.3: decls.insert(0, 'margin: 0 /* c */')
             body = '; '.join(decls) + (';' if rng.random() < 0.5 else '')
+            if len(decls) > 1 and rng.random() < 0.25:
+                body = body.replace('; ', '; /* between declarations */ ', 1); feats.add('comment-between-declarations')
             rule = f'{sel} {{ {body} }}'
             depth = rng.choice([0, 0, 0, 1, 2, 3])
             for k in range(depth):
@@ -251,6 +257,9 @@ CORE_SHEETS = [
     # reference cycles and self-reference among custom properties (no colour can be resolved: needs attention, nothing written, nothing raised)
     ('core_cycle1.css', ':root { --a: var(--b); --b: var(--a) }\n.x { color: var(--a); background-color: #fff }\n.y { color: #888; background-color: #fff }\n', {'core', 'var-cycle'}),
     ('core_cycle2.css', 'html { --a: var(--a); --c: var(--c) }\n.x { color: var(--a, #999); background-color: #fff }\n.y { color: var(--b, var(--c)); }\n', {'core', 'var-cycle'}),
+    # last `color` wins wherever it stands; comments between declarations of an adjusted rule
+    ('core_repeat.css', '.a { color: #222; background-color: white; color: #999 }\n.b { color: #999; background-color: white; color: #222 }\n', {'core', 'repeated-after-background'}),
+    ('core_comments.css', '.a { /* lead */ color: #888; /* between */ background-color: #fff; /* tail */ }\n@media print { .b { margin: 0; /* m */ color: #8a8a8a /* in value */; } }\n', {'core', 'comment-between-declarations'}),
     # same selector twice, different outcomes; deep nesting
     ('core_same_sel.css', '.a { color: #000; background-color: #fff }\n@media print { @supports (display: grid) { .a { color: #999; background-color: #fff } } }\n.a { color: #fefefe; background-color: #fff }\n', {'core', 'nested:2'}),
     ('core_deep.css', '@media (min-width: 1px) { @supports (display: grid) { @media print { .a { color: #8a8a8a; background-color: #fff } } } }\n', {'core', 'nested:3'}),
